@@ -80,6 +80,11 @@ def run_wsgi_sse(prefix, n_items, raise_at, consume, line_points, max_timeouts, 
             g = gens[self.k]
             self.k += 1
             return g
+    class BadSource:
+        """raise_at = -1: the event source fails before its first step (its __iter__ raises)."""
+
+        def __iter__(self):
+            raise Boom("iter")
     shared_box = {}
     old_queue, old_pool, old_submit = WR.queue, WR.SendEventResponse.thread_pool, CFT.ThreadPoolExecutor.submit
     WR.queue = VT.ShimQueueModule
@@ -98,6 +103,8 @@ def run_wsgi_sse(prefix, n_items, raise_at, consume, line_points, max_timeouts, 
                 if "r" not in shared_box:
                     shared_box["r"] = WR.SendEventResponse(Source(), ping_interval=1)
                 r = shared_box["r"]
+            elif raise_at == -1:
+                r = WR.SendEventResponse(BadSource(), ping_interval=1)
             else:
                 r = WR.SendEventResponse(g, ping_interval=1)
             it = iter(r({"REQUEST_METHOD": "GET"}, start_response))
@@ -205,7 +212,7 @@ def judge_wsgi_sse(o, n_items, raise_at, consume, empty_at=None, cleanup_raises=
             p.append("the producer's exception did not surface although the response was read to its end")
         if raise_at is None and not cleanup_raises and o["server_exc"]:
             p.append(f"the response raised {o['server_exc']} although the producer did not fail")
-        if raise_at is not None and data != list(range(raise_at)):
+        if raise_at is not None and data != list(range(max(raise_at, 0))):
             p.append(f"items yielded before the failure were lost: delivered {data}")
     return p
 
@@ -262,8 +269,31 @@ def wsgi_stream_cases(r, nmax):
                     r.violation("wsgi_stream:" + pr.split(" ")[0], w, f"WSGI StreamResponse n={n} raise_at={raise_at} consume={consume}: {pr}")
 
 
+def wsgi_stream_bad_source(r):
+    from baize.wsgi import StreamResponse
+
+    class Bad:
+        def __iter__(self):
+            raise Boom("iter")
+    for consume in (0, 1, None):
+        res = SV.run_wsgi(StreamResponse(Bad()), SV.to_environ(SV.AReq()), close_after=consume)
+        r.count("evaluations")
+        r.count("traces")
+        probs = [x for x in res.problems if not (consume == 0 and x == "start_response never called")]
+        if consume != 0 and not isinstance(res.exc, Boom):
+            probs.append(f"the source's exception did not surface: {res.exc!r}")
+        if res.body:
+            probs.append(f"bytes {res.body!r} from a source that never produced any")
+        if not res.closed:
+            probs.append("close() failed")
+        for pr in probs[:1]:
+            r.violation("wsgi_stream:" + pr.split(" ")[0], {"driver": "wsgi_stream", "n": 0, "raise_at": -1, "consume": consume}, f"WSGI StreamResponse over a source whose __iter__ raises, consume={consume}: {pr}")
+
+
 # ====================================================================================== ASGI on the virtual loop
-def run_asgi(prefix, kind, n_items, raise_at, gate_sends, slow_close, with_disconnect, max_pings, empty_at=None):
+def run_asgi(prefix, kind, n_items, raise_at, gate_sends, slow_close, with_disconnect, max_pings, empty_at=None, producer="agen", send_fail_at=None):
+    """producer: "agen" (async generator), "class" (an object with __aiter__/__anext__/aclose that is not a generator),
+    "aiter-raises" (its __aiter__ raises). send_fail_at=k: the k-th send() (0 = response start) and every later one raise OSError."""
     import baize.asgi.responses as AR
 
     obs = {"enter": 0, "exit": 0, "cleanup_started": 0, "sent": [], "yielded": [], "disc_processed_at": None, "disc_event_at": None, "exc": None, "post_disc_items": [], "post_disc_timers": 0}
@@ -288,6 +318,39 @@ def run_asgi(prefix, kind, n_items, raise_at, gate_sends, slow_close, with_disco
                     await env.gate("cleanup")
                 obs["exit"] += 1
 
+        class AIter:
+            """Same steps as gen(), written as a class: release is aclose(), there is no generator frame to close."""
+
+            def __init__(self):
+                self.i = 0
+
+            def __aiter__(self):
+                if producer == "aiter-raises":
+                    raise Boom("aiter")
+                return self
+
+            async def __anext__(self):
+                if self.i == 0:
+                    obs["enter"] += 1
+                i = self.i
+                self.i += 1
+                if i < n_items:
+                    await env.gate(f"p{i}")
+                    if raise_at == i:
+                        raise Boom(i)
+                    obs["yielded"].append(i)
+                    return (({} if i == empty_at else {"data": str(i)}) if kind == "sse" else b"%d;" % i)
+                await env.gate("pend")
+                if raise_at == n_items:
+                    raise Boom("end")
+                raise StopAsyncIteration
+
+            async def aclose(self):
+                obs["cleanup_started"] += 1
+                if slow_close:
+                    await env.gate("cleanup")
+                obs["exit"] += 1
+
         srv = {"first": True, "gone": False}
 
         async def receive():
@@ -304,12 +367,15 @@ def run_asgi(prefix, kind, n_items, raise_at, gate_sends, slow_close, with_disco
         nsend = [0]
 
         async def send(m):
+            if send_fail_at is not None and len(obs["sent"]) + obs.setdefault("failed_sends", 0) >= send_fail_at:
+                obs["failed_sends"] += 1
+                raise OSError("client went away")
             obs["sent"].append((m["type"], m.get("body"), m.get("more_body")))
             if gate_sends:
                 nsend[0] += 1
                 await env.gate(f"s{nsend[0]:02d}")
 
-        g = gen()
+        g = gen() if producer == "agen" else AIter()
         resp = AR.SendEventResponse(g, ping_interval=10) if kind == "sse" else AR.StreamResponse(g)
         task = s.loop.create_task(resp({"type": "http", "method": "GET", "headers": []}, receive, send))
         loop = s.loop
@@ -381,15 +447,19 @@ def run_asgi(prefix, kind, n_items, raise_at, gate_sends, slow_close, with_disco
         q = s.quiescence()
         obs.update(q)
         try:
-            obs["gen_state"] = "closed" if g.ag_frame is None else ("running" if g.ag_running else "suspended-or-created")
             obs["gen_started"] = obs["enter"] > 0
+            obs["gen_state"] = "closed" if producer != "agen" or g.ag_frame is None else ("running" if g.ag_running else "suspended-or-created")
         except Exception:
             obs["gen_state"] = "?"
+        if producer != "agen":
+            g.aclose = None  # (break the cycle through the bound method's closure for the collector)
     return Execution(choices, points, obs)
 
 
-def judge_asgi(o, kind, n_items, raise_at, with_disconnect, slow_close, empty_at=None):
+def judge_asgi(o, kind, n_items, raise_at, with_disconnect, slow_close, empty_at=None, producer="agen", send_fail_at=None):
     p = []
+    if producer == "aiter-raises":
+        raise_at = -1
     if o["stuck"]:
         return [f"STUCK ({o['stuck']}): the response call never returned although every event was delivered; trace {o['trace'][-12:]}"]
     if o["pending_tasks"]:
@@ -398,15 +468,27 @@ def judge_asgi(o, kind, n_items, raise_at, with_disconnect, slow_close, empty_at
         p.append(f"{o['live_timers']} timer(s) still armed after the call returned")
     if o["loop_errors"]:
         p.append(f"event loop logged {o['loop_errors'][:1]}")
-    if o["enter"] > 1 or o["cleanup_started"] != o["enter"]:
+    if producer != "agen" and not o["enter"]:
+        if o["cleanup_started"] > 1:
+            p.append(f"producer released {o['cleanup_started']} times")
+    elif o["enter"] > 1 or o["cleanup_started"] != o["enter"]:
         p.append(f"producer cleanup started {o['cleanup_started']} times for {o['enter']} entries")
-    if not slow_close and o["exit"] != o["enter"]:
+    # (a cleanup that is still awaiting when the client leaves is cancelled with the relay task - that is asyncio's contract;
+    #  without a disconnect nothing may interrupt it)
+    if o["exit"] != o["cleanup_started"] and (not slow_close or o["disc_event_at"] is None):
         p.append(f"producer cleanup completed {o['exit']} times for {o['enter']} entries")
     if o["gen_started"] and o["gen_state"] != "closed":
         p.append(f"user generator left {o['gen_state']}")
     sent = o["sent"]
     probs = SV.asgi_http_problems([{"type": t, "body": b or b"", "more_body": bool(m)} | ({"status": 200, "headers": []} if t == "http.response.start" else {}) for t, b, m in sent], complete=o["exc"] is None)
     p.extend(probs[:1])
+    if o.get("failed_sends"):
+        # the server refused a message: the call must end with that error, without trying to send anything else
+        if o["exc"] not in ("OSError", "Boom"):
+            p.append(f"send() failed but the call ended with {o['exc']}")
+        if o["failed_sends"] > 1:
+            p.append(f"{o['failed_sends']} send() calls after the server had refused one")
+        return p
     data = []
     for t, b, m in sent:
         if t != "http.response.body" or not b or b == b": ping\n\n":
@@ -438,7 +520,7 @@ def judge_asgi(o, kind, n_items, raise_at, with_disconnect, slow_close, empty_at
         else:
             if o["exc"] != "Boom":
                 p.append(f"the producer's exception did not surface (call outcome {o['exc']})")
-            if data != list(range(raise_at)):
+            if data != list(range(max(raise_at, 0))):
                 p.append(f"items before the failure lost: {data}")
     else:
         after = [x for x in sent[disc:] if x[0] == "http.response.body" and x[1]] if disc is not None else []
@@ -474,6 +556,9 @@ def wsgi_configs(tier):
         out.append((1, None, consume, 0, None, False, 2))
     for consume in (0, 1, 2):
         out.append((1, None, consume, 2, None, False, 0))  # streams = 0: the pool is saturated, the relay never starts; the consumer sees pings, then closes
+    for consume in (0, 1, None):
+        for timeouts in (0, 1):
+            out.append((1, -1, consume, timeouts, None, False, 1))  # raise_at = -1: the source's __iter__ raises
     out.append((1, None, None, 0, None, False, -2))  # streams = -2: one response object (re-iterable source) serving two overlapping requests
     out.append((1, None, 1, 0, None, False, -2))
     return [c if len(c) == 7 else c + (False, 1) for c in out]
@@ -501,10 +586,33 @@ def asgi_configs(tier):
     return out
 
 
+def asgi_extra_configs(tier):
+    """(config 8-tuple, producer kind, send_fail_at): class-based producers, a producer whose __aiter__ raises, a server whose
+    send() fails from the k-th call on."""
+    out = []
+    for kind in ("stream", "sse"):
+        for n in (0, 1, 2):
+            for raise_at in [None] + list(range(0, n + 1)):
+                for slow_close in (False, True):
+                    for disc in (False, True):
+                        out.append(((kind, n, raise_at, False, slow_close, disc, 1, None), "class", None))
+        for disc in (False, True):
+            out.append(((kind, 1, None, False, False, disc, 1, None), "aiter-raises", None))
+        for producer in ("agen", "class"):
+            for n in (0, 1, 2):
+                for k in range(0, n + 3):
+                    out.append(((kind, n, None, False, False, False, 1, None), producer, k))
+                    if tier == "thorough":
+                        out.append(((kind, n, None, False, True, True, 1, None), producer, k))
+            out.append(((kind, 1, 0, False, False, False, 1, None), producer, 0))
+    return out
+
+
 def shards(tier, seed):
     out = [("wsgi_sse", i) for i in range(len(wsgi_configs(tier)))]
     out.append(("wsgi_stream",))
     out += [("asgi", i) for i in range(len(asgi_configs(tier)))]
+    out += [("asgi_x", i) for i in range(len(asgi_extra_configs(tier)))]
     return out
 
 
@@ -543,14 +651,19 @@ def run_shard(desc, tier):
             r.sample({"driver": "wsgi_sse", "n": n, "raise_at": raise_at, "consume": consume, "ping_timeouts": timeouts, "bounds": bounds_for(tier)})
     elif desc[0] == "wsgi_stream":
         wsgi_stream_cases(r, 3)
+        wsgi_stream_bad_source(r)
         r.count("states", 1)
         r.sample({"driver": "wsgi_stream", "n": 3, "raise_at": 1, "consume": 2})
     else:
-        kind, n, raise_at, gate_sends, slow_close, disc, pings, empty_at = asgi_configs(tier)[desc[1]]
+        producer, send_fail_at = "agen", None
+        if desc[0] == "asgi_x":
+            (kind, n, raise_at, gate_sends, slow_close, disc, pings, empty_at), producer, send_fail_at = asgi_extra_configs(tier)[desc[1]]
+        else:
+            kind, n, raise_at, gate_sends, slow_close, disc, pings, empty_at = asgi_configs(tier)[desc[1]]
         outcomes = set()
 
         def run(prefix):
-            return run_asgi(prefix, kind, n, raise_at, gate_sends, slow_close, disc, pings, empty_at)
+            return run_asgi(prefix, kind, n, raise_at, gate_sends, slow_close, disc, pings, empty_at, producer, send_fail_at)
 
         def on_exec(x):
             r.count("evaluations")
@@ -558,11 +671,11 @@ def run_shard(desc, tier):
             r.count("transitions", len(x.choices))
             o = x.obs
             outcomes.add((o["stuck"], o["enter"], o["exit"], o["exc"], o["pending_tasks"], o["live_timers"], len(o["sent"])))
-            probs = judge_asgi(o, kind, n, raise_at, disc, slow_close, empty_at)
+            probs = judge_asgi(o, kind, n, raise_at, disc, slow_close, empty_at, producer, send_fail_at)
             if probs:
                 what = "stuck" if probs[0].startswith("STUCK") else probs[0].split(" ")[0]
-                r.violation(f"asgi_{kind}:{what}", {"driver": "asgi", "config": [kind, n, raise_at, gate_sends, slow_close, disc, pings, empty_at], "schedule": list(x.choices)},
-                            f"ASGI {kind} response, {n} items (fails at {raise_at}), gated sends={gate_sends}, slow cleanup={slow_close}, disconnect={disc}: {probs[0]}")
+                r.violation(f"asgi_{kind}:{what}", {"driver": "asgi", "config": [kind, n, raise_at, gate_sends, slow_close, disc, pings, empty_at], "producer": producer, "send_fail_at": send_fail_at, "schedule": list(x.choices)},
+                            f"ASGI {kind} response, {n} items (fails at {raise_at}), producer kind {producer}, send() failing from call {send_fail_at}, gated sends={gate_sends}, slow cleanup={slow_close}, disconnect={disc}: {probs[0]}")
         dfs(run, on_exec)
         r.count("states", len(outcomes))
         if disc:
@@ -574,7 +687,7 @@ def run_shard(desc, tier):
 
 def finish(merged, tier):
     return {"bounds": {"wsgi_sse_configs": len(wsgi_configs(tier)), "preemption_bounds": [{"line_points": lp, "bound": b} for lp, b in bounds_for(tier)],
-                       "asgi_configs": len(asgi_configs(tier)), "asgi_schedules": "unbounded (all interleavings)"}}
+                       "asgi_configs": len(asgi_configs(tier)) + len(asgi_extra_configs(tier)), "asgi_schedules": "unbounded (all interleavings)"}}
 
 
 def replay(w):
@@ -585,8 +698,9 @@ def replay(w):
     if w["driver"] == "wsgi_stream":
         r = R()
         wsgi_stream_cases(r, 3)
+        wsgi_stream_bad_source(r)
         return bool(r.viol), {"violations": sorted(r.viol)}
     kind, n, raise_at, gate_sends, slow_close, disc, pings, empty_at = w["config"]
-    x = run_asgi(list(w["schedule"]), kind, n, raise_at, gate_sends, slow_close, disc, pings, empty_at)
-    probs = judge_asgi(x.obs, kind, n, raise_at, disc, slow_close, empty_at)
+    x = run_asgi(list(w["schedule"]), kind, n, raise_at, gate_sends, slow_close, disc, pings, empty_at, w.get("producer", "agen"), w.get("send_fail_at"))
+    probs = judge_asgi(x.obs, kind, n, raise_at, disc, slow_close, empty_at, w.get("producer", "agen"), w.get("send_fail_at"))
     return bool(probs), {"problems": probs, "trace": x.obs["trace"][-30:]}
